@@ -103,15 +103,21 @@ Definition declared (T : rtab) (o : dopts) (ds : list desc) : list dacc :=
    JSDoc imports and the x-typescript-types header are entered BEFORE the descriptors are folded in,
    so an import of the same text finds their entry. *)
 Inductive tsref := TsPath (text range : N) | TsTypes (text range : N).
+Inductive rtypes := RtNone | RtErr (e : N) | RtOk (target : N).   (* Resolver::resolve_types: Ok(None) / Err / Ok(Some) *)
 Record extras := {
   ex_self : option (N * N);            (* @ts-self-types: text, range *)
   ex_refs : list tsref;
   ex_jsx : option (N * N);             (* "<source>/jsx-runtime" as text, range of the pragma *)
   ex_jsx_types : option (N * N);       (* "<types source>/jsx-runtime" as text, range *)
   ex_jsdoc : list (N * N);
-  ex_header : option N                 (* x-typescript-types header text *)
+  ex_header : option N;                (* x-typescript-types header text *)
+  (* what a Resolver adds (all absent without one) *)
+  ex_def_jsx : option N;               (* default_jsx_import_source, as "<source>/<jsx module>" *)
+  ex_def_jsx_types : option N;         (* default_jsx_import_source_types, as "<source>/<jsx module>" *)
+  ex_res_types : rtypes                (* resolve_types of the module itself *)
 }.
-Record fopts := { fo_base : dopts; fo_jsx : bool; fo_zero_range : N }.   (* media is JSX/TSX; the id of the zeroed range *)
+(* media is JSX/TSX; the id of the zeroed range; the module's own specifier as a text *)
+Record fopts := { fo_base : dopts; fo_jsx : bool; fo_zero_range : N; fo_self_text : N }.
 
 (* modify the entry of [text], creating it when absent *)
 Fixpoint with_entry (text : N) (f : dacc -> dacc) (l : list dacc) : list dacc :=
@@ -142,15 +148,31 @@ Definition add_ref (T : rtab) (o : dopts) (st : tdep * list dacc) (r : tsref) : 
       else (td, with_entry text (fun a => bump (set_type_if_none (resolve_in (rt_types T) text range) a)) l)
   end.
 
-Definition add_jsx (T : rtab) (o : dopts) (x : extras) (l : list dacc) : list dacc :=
+(* the JSX import source in force: the pragma, else the resolver's default (zeroed range); its types:
+   the pragma's, else - only when the source itself is not from a pragma - the resolver's default *)
+Definition jsx_eff (fo : fopts) (x : extras) : option (N * N) :=
   match ex_jsx x with
+  | Some p => Some p
+  | None => option_map (fun t => (t, fo_zero_range fo)) (ex_def_jsx x)
+  end.
+Definition jsx_types_eff (fo : fopts) (x : extras) : option (N * N) :=
+  match ex_jsx_types x with
+  | Some p => Some p
+  | None => match ex_jsx x with
+            | None => option_map (fun t => (t, fo_zero_range fo)) (ex_def_jsx_types x)
+            | Some _ => None
+            end
+  end.
+
+Definition add_jsx (T : rtab) (o : dopts) (jsx jsx_types : option (N * N)) (l : list dacc) : list dacc :=
+  match jsx with
   | None => l
   | Some (text, range) =>
       with_entry text (fun a =>
         let code := if is_dnone (da_code a) then resolve_in (rt_exec T) text range else da_code a in
         let '(ty, deno) :=
           if do_types o && is_dnone (da_type a) then
-            match ex_jsx_types x with
+            match jsx_types with
             | Some (jt, tr) => (resolve_in (rt_types T) jt tr, Some jt)
             | None =>
                 let r := resolve_in (rt_types T) text range in
@@ -168,7 +190,7 @@ Definition pre_phase (T : rtab) (fo : fopts) (x : extras) : tdep * list dacc :=
       fold_left (add_ref T o) (ex_refs x)
         (match ex_self x with Some (t, r) => Some (t, resolve_in (rt_types T) t r) | None => None end, [])
     else (None, []) in
-  let l1 := if fo_jsx fo then add_jsx T o x (snd st0) else snd st0 in
+  let l1 := if fo_jsx fo then add_jsx T o (jsx_eff fo x) (jsx_types_eff fo x) (snd st0) else snd st0 in
   let l2 := if do_types o
             then fold_left (fun l j => with_entry (fst j) (fun a => bump (set_type_if_none (resolve_in (rt_types T) (fst j) (snd j)) a)) l)
                            (ex_jsdoc x) l1
@@ -176,6 +198,18 @@ Definition pre_phase (T : rtab) (fo : fopts) (x : extras) : tdep * list dacc :=
   let td := match fst st0, ex_header x with
             | None, Some h => if do_types o then Some (h, resolve_in (rt_types T) h (fo_zero_range fo)) else None
             | td0, _ => td0
+            end in
+  (* Resolver::resolve_types: only when nothing else gave a types dependency and the media type is untyped *)
+  let td := match td with
+            | Some _ => td
+            | None =>
+                if do_types o && negb (do_typed o) then
+                  match ex_res_types x with
+                  | RtNone => None
+                  | RtErr e => Some (fo_self_text fo, DErr e (fo_zero_range fo))
+                  | RtOk t => Some (fo_self_text fo, DOk t (fo_zero_range fo))
+                  end
+                else None
             end in
   (td, l2).
 
@@ -186,4 +220,5 @@ Definition declared_full (T : rtab) (fo : fopts) (x : extras) (ds : list desc) :
              (fold_left (fun l i => if skipped o i then l else upd T o i l) ds l0))).
 
 Definition no_extras : extras :=
-  {| ex_self := None; ex_refs := []; ex_jsx := None; ex_jsx_types := None; ex_jsdoc := []; ex_header := None |}.
+  {| ex_self := None; ex_refs := []; ex_jsx := None; ex_jsx_types := None; ex_jsdoc := []; ex_header := None;
+     ex_def_jsx := None; ex_def_jsx_types := None; ex_res_types := RtNone |}.
